@@ -42,6 +42,8 @@ pub fn replay(_args: &[String]) {
         let reqs = v["requests"].as_array().unwrap().clone();
         let mut cur = fixture(fx);
         let mut labels: Vec<String> = vec![]; // manifest label of level m (1-based -> index m-1)
+        let mut hash_labels: Vec<String> = vec![]; // label of the hard-binding assertion of level m
+        let rogue = v["verdict"] == "invalid"; // the last level is signed by a generator that does not refuse (hook H6)
         let mut levels = vec![];
         let r = catch(AssertUnwindSafe(|| {
             for (ji, req) in reqs.iter().enumerate() {
@@ -55,14 +57,18 @@ pub fn replay(_args: &[String]) {
                     let m = t["m"].as_u64().unwrap() as usize;
                     let kind = t["kind"].as_str().unwrap();
                     let ml = if m == j { own_label.clone() } else { labels[m - 1].clone() };
-                    let uri = format!("self#jumbf=/c2pa/{}/c2pa.assertions/{}", ml, label_of(kind, m));
+                    // the hard binding is named by its real label (c2pa.hash.data, c2pa.hash.bmff.v3, ..)
+                    let lbl = if kind == "hash" && m < j { hash_labels.get(m - 1).cloned().unwrap_or_else(|| label_of(kind, m)) } else { label_of(kind, m) };
+                    let uri = format!("self#jumbf=/c2pa/{}/c2pa.assertions/{}", ml, lbl);
                     actions.push(json!({"action": "c2pa.redacted", "reason": "c2pa.PII.present", "parameters": {"redacted": uri}}));
                     red.push(uri);
                 }
                 if !actions.is_empty() { assertions.push(json!({"label": "c2pa.actions", "data": {"actions": actions}})); }
                 let mut def = json!({"title": format!("L{j}"), "format": mime, "label": own_label, "claim_generator_info": [{"name": "vh", "version": "0.1"}], "assertions": assertions});
                 if !red.is_empty() { def["redactions"] = json!(red); }
-                let mut b = match Builder::from_context(ctx(&settings_json())).with_definition(def.to_string().as_str()) { Ok(b) => b, Err(e) => { levels.push(json!({"j": j, "sign": format!("definition:{}", err_kind(&e))})); break; } };
+                // a generator that does not refuse does not validate its own output either
+                let sj = if rogue && j == reqs.len() { json!({"verify": {"remote_manifest_fetch": false, "verify_after_sign": false}}) } else { settings_json() };
+                let mut b = match Builder::from_context(ctx(&sj)).with_definition(def.to_string().as_str()) { Ok(b) => b, Err(e) => { levels.push(json!({"j": j, "sign": format!("definition:{}", err_kind(&e))})); break; } };
                 if j > 1 { b.set_intent(BuilderIntent::Edit); }
                 if j > 1 && v["arch"] == true {
                     // C22: the builder (with its parent ingredient and redactions) goes through an archive before signing
@@ -76,12 +82,23 @@ pub fn replay(_args: &[String]) {
                 let s = signer("ed25519");
                 let mut src = Cursor::new(cur.clone());
                 let mut dst = Cursor::new(Vec::new());
-                match b.sign(s.as_ref(), mime, &mut src, &mut dst) {
+                let forced = rogue && j == reqs.len();
+                if forced { c2pa::verif_hooks::set_skip_redaction_legality_test(true); }
+                let sr = b.sign(s.as_ref(), mime, &mut src, &mut dst);
+                if forced { c2pa::verif_hooks::set_skip_redaction_legality_test(false); }
+                match sr {
                     Ok(_) => {
                         cur = dst.into_inner();
                         let rd = read(mime, &cur);
                         labels.push(rd["active"].as_str().unwrap_or("").to_string());
-                        levels.push(json!({"j": j, "sign": "ok", "read": rd, "requested": red, "label_kept": rd["active"] == own_label}));
+                        // the hard binding of the manifest just signed
+                        let hl = c2pa::jumbf_io::load_jumbf_from_memory(mime, &cur).ok().and_then(|st| {
+                            let boxes = crate::c02::walk(&st);
+                            let mi = boxes.iter().position(|b| b.ty == "jumb" && b.depth == 1 && b.label == rd["active"].as_str().unwrap_or(""))?;
+                            boxes.iter().enumerate().find(|(i, b)| b.ty == "jumb" && b.label.starts_with("c2pa.hash.") && { let mut p = boxes[*i].parent; let mut inside = false; while let Some(x) = p { if x == mi { inside = true; break; } p = boxes[x].parent; } inside }).map(|(_, b)| b.label.clone())
+                        }).unwrap_or_else(|| "c2pa.hash.data".to_string());
+                        hash_labels.push(hl);
+                        levels.push(json!({"j": j, "sign": "ok", "read": rd, "requested": red, "label_kept": rd["active"] == own_label, "forced": forced}));
                     }
                     Err(e) => { levels.push(json!({"j": j, "sign": format!("err:{}", err_kind(&e)), "requested": red})); break; }
                 }
